@@ -52,7 +52,7 @@ extern void *mpt_array_insert(MPT_STRUCT(array) *arr, size_t pos, size_t len)
 	}
 	/* sufficient private space */
 	if ((used + len) <= b->_size
-	    && !(b->_vptr->get_flags(b) & MPT_ENUM(BufferShared))) {
+	    && !(b->_vptr->get_flags(b) & (MPT_ENUM(BufferShared) | MPT_ENUM(BufferImmutable)))) {
 		return mpt_buffer_insert(b, pos, len);
 	}
 	if (!(b = b->_vptr->detach(b, used + len))) {
